@@ -68,7 +68,11 @@ def values():
             g[1] += 1
             if f.get('detected_by'):
                 g[0] += 1
-    v['SEEDFINALLINE'] = ('tools/seedfinal.py over all %d stored seeds with the final checks: %d detected, %d undecided, %d missed, '
+    own = any('seedfinal_own' in json.load(open(mp)).get('final_version_of_the_checks', {}).get('how', '')
+              for mp in glob.glob(os.path.join(HERE, 'seeded', 'C*', 'meta.json')))
+    tool = ('tools/seedfinal_own.py (each seed against the check of its own property only, a lower bound: the all-checks sweep '
+            'tools/seedfinal.py did not finish inside the session)') if own else 'tools/seedfinal.py'
+    v['SEEDFINALLINE'] = (tool + ' over all %d stored seeds with the final checks: %d detected, %d undecided, %d missed, '
                           '%d no longer apply to the moved /repo' % (sum(tot), tot[0], tot[1], tot[2], tot[3]))
     for r, g in gain.items():
         v['R%dGAINLINE' % r] = 'Of the %d round-%d seeds missed or undecided at first measurement (and still applicable), %d are detected by the final checks' % (g[1], r, g[0])
